@@ -111,6 +111,14 @@ CHECKS = {
             "events and nothing may follow; both visit overloads; enum (known/unknown) and set visits for every member.",
             "generator domain of DESIGN 2.2 (unsigned level headers, ids/block lengths representable in header members, depth <= 3); the python reference model is the trusted oracle; g++12/clang++14; stop points sampled beyond 40 (quick) / 400 (thorough) callbacks",
             "DESIGN.md section 3, C19"),
+    "C09": ("exploration",
+            "mutation fuzzing of the ASan+UBSan+assert build of sbeppc with a process-level monitor (wait status, sanitizer/"
+            "assert output, diagnostic line, output directory)",
+            "Thousands (quick) to hundreds of thousands (thorough) of structure-aware and byte-level mutants of valid "
+            "schemas, include graphs and an argv grammar are run through the instrumented sbeppc; every run must end with "
+            "exit 0, or with a non-zero status, an Error line and no generated file. Held on the inputs tried.",
+            "one process per input; 25 s watchdog (retry at 75 s) and 3 GB RSS cap decide hang / out-of-memory",
+            "DESIGN.md section 3, C09"),
 }
 
 
